@@ -83,4 +83,15 @@ class CompressedFileHandler(FileHandler):
     def write(self, wfile):
         decompprog = self.decompressors[self.getentry().realencoding]
         with self.vfs.open(self.getselector(), "rb") as fp:
-            subprocess.run([decompprog], stdin=fp, stdout=wfile)
+            # Only a plain descriptor can be handed to the child: not a TLS
+            # stream (the output would bypass the session) nor a memory buffer.
+            try:
+                direct = not self.protocol.check_tls() and wfile.fileno() >= 0
+            except (AttributeError, OSError):
+                direct = False
+            if direct:
+                wfile.flush()
+                subprocess.run([decompprog], stdin=fp, stdout=wfile)
+            else:
+                resp = subprocess.run([decompprog], stdin=fp, capture_output=True)
+                wfile.write(resp.stdout)
